@@ -26,6 +26,8 @@ Embedded(e, form, x, r, expectIn) ==
                   Chk(~IsErr(o) /\ OutAddr(o) = b, P, "Embedded/" \o form \o "/address-not-written-back-unchanged/" \o Class(r), sc, [addr |-> b])
           /\ (r.ok = "yes" /\ r.canonical => Chk(x.kind = r.kind, P, "Embedded/" \o form \o "/valid-address-misclassified", sc, [addr |-> b, got |-> x.kind]))
           /\ (r.ok = "no" => Chk(x.kind = "malformed", P, "Embedded/" \o form \o "/invalid-address-not-kept-as-malformed/" \o r.why, sc, [addr |-> b, got |-> x.kind]))
+          \* bytes that are not a valid address stay invalid in text: the strict Bech32 parser refuses the text form of a malformed address
+          /\ (r.ok = "no" /\ x.kind = "malformed" /\ Has(x, "strict_bech32") => Chk(~Has(x.strict_bech32, "ok"), P, "Strict/bech32-accepted-invalid-" \o r.why, sc, [addr |-> b, prefix |-> x.bech32_prefix]))
 Judge(e) ==
   LET sc == e.sc b == e.bytes s == e.strict r == Classify(b) IN
   /\ Obl(P, sc, <<IF b = <<>> THEN -1 ELSE b[1] \div 16, Len(b), r.ok, IF r.ok = "no" THEN r.why ELSE "">>)
